@@ -4,6 +4,7 @@ package flags
 
 import (
 	"strings"
+	"unicode/utf8"
 )
 
 const (
@@ -45,7 +46,10 @@ func stripOptionPrefix(optname string) (prefix string, name string, islong bool)
 func splitOption(prefix string, option string, islong bool) (string, string, *string) {
 	pos := strings.Index(option, "=")
 
-	if (islong && pos >= 0) || (!islong && pos == 1) {
+	// A short option is a single character, which may be longer than one byte
+	_, first := utf8.DecodeRuneInString(option)
+
+	if (islong && pos >= 0) || (!islong && pos > 0 && pos == first) {
 		rest := option[pos+1:]
 		return option[:pos], "=", &rest
 	}
